@@ -215,6 +215,13 @@ class LinkRig:
         self._ncp_event(self.ncp.timer(), {"a": "ntick"})
         return True
 
+    def harm(self):
+        if self.host.write_fail_next:
+            return False
+        self.host.write_fail_next = True
+        self.trace.append({"a": "harm", "out": [], "t": self.loop.ms})
+        return True
+
     async def hcancel(self, i):
         t = self.host.tasks.get(i)
         if t is None or t.done():
@@ -251,7 +258,7 @@ class LinkRig:
 
 def run_link(args):
     """args = (win, schedule) ; schedule: list of steps
-         ("hsubmit",) ("nsubmit",) ("tohost", fault[, late]) ("toncp", fault) ("htick",) ("ntick",) ("hcancel", id)
+         ("hsubmit",) ("nsubmit",) ("tohost", fault[, late]) ("toncp", fault) ("htick",) ("ntick",) ("hcancel", id) ("harm",)
        inapplicable steps are skipped.  Ends with a fault-free drain."""
     win, schedule = args
 
@@ -277,6 +284,8 @@ def run_link(args):
                 await rig.hrelease()
             elif k == "nrelease":
                 rig.nrelease()
+            elif k == "harm":
+                rig.harm()
         await rig.drain()
         return rig.trace
     return vloop.run(main)
